@@ -66,6 +66,7 @@ MUTANTS = [
     M("xe2-whole-list", "visitors/x_expr_evaluator.py", "XExprEvaluator.visit_expr_array_subscript", "s.subscript().accept(self)", "field.accept(self)", ["C01", "C03"], "XE2"),
     M("rn10-initial-used-rand", "model/field_scalar_model.py", "FieldScalarModel.__init__", "self.is_used_rand = False", "self.is_used_rand = is_rand", ["C03"], "RN10"),
     M("rn10-preextend-ungated", "visitors/array_constraint_builder.py", "ArrayConstraintBuilder.visit_field_scalar_array", "f.is_rand_sz and f.size.is_used_rand", "f.is_rand_sz", ["C03"], "RN10"),
+    M("rn10-stale-list-flag", "model/field_array_model.py", "FieldArrayModel.add_field", "ret.set_used_rand(self.size.is_used_rand, 1)", "ret.set_used_rand(self.is_used_rand, 1)", ["C03"], "RN10"),
     M("ft27-facade-only", "types.py", "list_t.__setitem__", "model.set_field(k, elem_m)", "pass", ["C08", "C04"], "FT27"),
     M("rs7-swap-roles", "model/rand_info_builder.py", "RandInfoBuilder.visit_constraint_solve_order", "ExpandSolveOrderVisitor(self._order_m).expand(a, b)",
       "ExpandSolveOrderVisitor(self._order_m).expand(b, a)", ["C20"], "RS7"),
